@@ -6,7 +6,8 @@
 //! checks that what it gets back belongs to its own request and is complete.
 //!
 //! line: `e2e <buf> <pool 0|1> <tls 0|1|2|3> ; <req> ; <req> …`   (tls 2 / 3: the server's ALPN offers only http/1.1 / only h2)
-//!   req: `<id> <ver 11|2> <origin 0-5: scheme/host/port variants, see `origin`> <method G|P|U|D|H> <pathlen> <querylen> <bodylen> <bodychunk> <bodyexact 0|1>
+//!   (method `W` = protocol upgrade: GET with `Upgrade`, 101, then `bodylen` bytes to the server and `resplen` bytes back on the upgraded stream)
+//!   req: `<id> <ver 11|2> <origin 0-5: scheme/host/port variants, see `origin`> <method G|P|U|D|H|W> <pathlen> <querylen> <bodylen> <bodychunk> <bodyexact 0|1>
 //!         <handler delay ms> <resplen> <respchunk> <respexact 0|1> <start ms> <cancel after ms|->`
 //! obs : per request `<id>=<ok|cancelled|timeout|err:CLASS|mismatch:FIELDS>/<handler calls>/<ok|aborted|bad:FIELDS|->`
 use crate::rng::Rng;
@@ -67,7 +68,7 @@ struct R { id: u64, h2: bool, origin: u64, method: &'static str, plen: usize, ql
 fn parse_req(t: &[&str]) -> Option<R> {
     if t.len() != 15 { return None; }
     let n = |i: usize| t[i].parse::<u64>().ok();
-    Some(R { id: n(0)?, h2: t[1] == "2", origin: n(2)?, method: match t[3] { "G" => "GET", "P" => "POST", "U" => "PUT", "D" => "DELETE", "H" => "HEAD", _ => return None },
+    Some(R { id: n(0)?, h2: t[1] == "2", origin: n(2)?, method: match t[3] { "G" => "GET", "P" => "POST", "U" => "PUT", "D" => "DELETE", "H" => "HEAD", "W" => "UPGRADE", _ => return None },
         plen: n(4)? as usize, qlen: n(5)? as usize, blen: n(6)? as usize, bchunk: n(7)? as usize, bexact: t[8] == "1", delay: n(9)?, rlen: n(10)? as usize,
         rchunk: n(11)? as usize, rexact: t[12] == "1", start: n(13)?, cancel: if t[14] == "-" { None } else { Some(n(14)?) } })
 }
@@ -124,6 +125,8 @@ fn status_of(id: u64) -> u16 { [200u16, 201, 202, 203, 404, 418, 500][(id % 7) a
 struct SrvLog { calls: HashMap<u64, (usize, String)> }
 
 async fn handler(log: Arc<Mutex<SrvLog>>, me: usize, req: http::Request<Body>) -> Result<http::Response<ChunkBody>, BoxError> {
+    let mut req = req;
+    let on_upgrade = if req.headers().contains_key(http::header::UPGRADE) { Some(hyper::upgrade::on(&mut req)) } else { None };
     let (parts, body) = req.into_parts();
     let h = |n: &str| parts.headers.get(n).and_then(|v| v.to_str().ok()).unwrap_or("").to_string();
     let hn = |n: &str| h(n).parse::<u64>().unwrap_or(u64::MAX);
@@ -141,7 +144,8 @@ async fn handler(log: Arc<Mutex<SrvLog>>, me: usize, req: http::Request<Body>) -
     let ql = hn("x-ql") as usize % 100000;
     if (ql == 0 && !q.is_empty()) || (ql > 0 && q != format!("q={}", text(id, 4, ql))) { bad.push("query"); }
     // a body that ends in an error (the caller went away) is not an altered body
-    if !aborted && body[..] != pat(id, 1, hn("x-bl") as usize % 10_000_000)[..] { bad.push("body"); }
+    let want_body = if on_upgrade.is_some() { vec![] } else { pat(id, 1, hn("x-bl") as usize % 10_000_000) };
+    if !aborted && body[..] != want_body[..] { bad.push("body"); }
     let host = h("host");
     let authority = parts.uri.authority().map(|a| a.to_string()).unwrap_or_default();
     let seen_origin = if !host.is_empty() { host.clone() } else { authority };
@@ -161,6 +165,24 @@ async fn handler(log: Arc<Mutex<SrvLog>>, me: usize, req: http::Request<Body>) -
     }
     let delay = hn("x-d") % 100000;
     if delay > 0 { tokio::time::sleep(Duration::from_millis(delay)).await; }
+    if let Some(on) = on_upgrade {
+        // switch protocols: afterwards the client sends `x-ul` pattern bytes and gets `x-rl` pattern bytes back
+        let (ul, rl, log2) = (hn("x-ul") as usize % 10_000_000, hn("x-rl") as usize % 10_000_000, log.clone());
+        tokio::spawn(async move {
+            use tokio::io::{AsyncReadExt, AsyncWriteExt};
+            let Ok(up) = on.await else { return };
+            let mut io = hyperdriver::bridge::io::TokioIo::new(up);
+            let mut got = vec![0u8; ul];
+            // a stream that ends early (the caller went away) is not altered data
+            let flag = match io.read_exact(&mut got).await { Ok(_) => if got == pat(id, 5, ul) { None } else { Some("bad:upgraded-bytes") }, Err(_) => Some("aborted") };
+            if let Some(f) = flag { if let Some(e) = log2.lock().unwrap().calls.get_mut(&id) { if e.1 == "ok" { e.1 = f.into(); } } }
+            let _ = io.write_all(&pat(id, 6, rl)).await;
+            let _ = io.flush().await;
+            let _ = io.shutdown().await;
+        });
+        return Ok(http::Response::builder().status(101).header(http::header::CONNECTION, "upgrade").header(http::header::UPGRADE, "hdverif")
+            .header("x-id", id.to_string()).header("x-server", me.to_string()).body(ChunkBody::default())?);
+    }
     let rlen = if parts.method == http::Method::HEAD { 0 } else { hn("x-rl") as usize % 10_000_000 };
     let resp = http::Response::builder()
         .status(status_of(id))
@@ -179,15 +201,19 @@ fn build(r: &R, tls: bool) -> http::Request<ChunkBody> {
     let (scheme, authority, srv, host) = origin(r.origin, tls);
     let mut uri = format!("{scheme}://{authority}/r/{}/{}", r.id, text(r.id, 3, r.plen));
     if r.qlen > 0 { uri.push_str(&format!("?q={}", text(r.id, 4, r.qlen))); }
-    http::Request::builder()
-        .method(r.method)
+    let upgrade = r.method == "UPGRADE";
+    let mut b = http::Request::builder()
+        .method(if upgrade { "GET" } else { r.method })
         .uri(uri)
-        .version(if r.h2 { http::Version::HTTP_2 } else { http::Version::HTTP_11 })
-        .header("x-id", r.id.to_string()).header("x-m", r.method).header("x-pl", r.plen.to_string()).header("x-ql", r.qlen.to_string())
+        .version(if r.h2 { http::Version::HTTP_2 } else { http::Version::HTTP_11 });
+    if upgrade { b = b.header(http::header::CONNECTION, "upgrade").header(http::header::UPGRADE, "hdverif"); }
+    b
+        .header("x-id", r.id.to_string()).header("x-m", if upgrade { "GET" } else { r.method }).header("x-pl", r.plen.to_string()).header("x-ql", r.qlen.to_string())
         .header("x-bl", r.blen.to_string()).header("x-o", r.origin.to_string()).header("x-h", host).header("x-dp", if tls { ":443" } else { ":80" }).header("x-s", srv.to_string()).header("x-v", if r.h2 { "2" } else { "11" })
         .header("x-d", r.delay.to_string()).header("x-rl", r.rlen.to_string()).header("x-rc", r.rchunk.to_string())
         .header("x-re", if r.rexact { "1" } else { "0" }).header("x-custom", format!("v{}", r.id))
-        .body(ChunkBody::new(pat(r.id, 1, r.blen), r.bchunk, r.bexact, if r.id % 3 == 0 { 1 } else { 0 }))
+        .header("x-ul", r.blen.to_string())
+        .body(if upgrade { ChunkBody::default() } else { ChunkBody::new(pat(r.id, 1, r.blen), r.bchunk, r.bexact, if r.id % 3 == 0 { 1 } else { 0 }) })
         .unwrap()
 }
 
@@ -202,7 +228,25 @@ fn classify(e: &hyperdriver::client::Error) -> String {
 async fn one(svc: hyperdriver::service::SharedService<http::Request<ChunkBody>, http::Response<Body>, hyperdriver::client::Error>, r: R, tls: bool) -> String {
     tokio::time::sleep(Duration::from_millis(r.start)).await;
     let work = async {
-        let resp = match svc.oneshot(build(&r, tls)).await { Ok(x) => x, Err(e) => return format!("err:{}", classify(&e)) };
+        let mut resp = match svc.oneshot(build(&r, tls)).await { Ok(x) => x, Err(e) => return format!("err:{}", classify(&e)) };
+        if r.method == "UPGRADE" {
+            use tokio::io::{AsyncReadExt, AsyncWriteExt};
+            let (_, _, srv, _) = origin(r.origin, tls);
+            let hv = |n: &str| resp.headers().get(n).and_then(|v| v.to_str().ok()).unwrap_or("").to_string();
+            let mut bad = vec![];
+            if resp.status().as_u16() != 101 { bad.push("status"); }
+            if hv("x-id") != r.id.to_string() { bad.push("id"); }
+            if hv("x-server") != srv.to_string() { bad.push("server"); }
+            if !bad.is_empty() { return format!("mismatch:{}", bad.join(",")); }
+            let up = match hyper::upgrade::on(&mut resp).await { Ok(u) => u, Err(_) => return "err:upgrade".to_string() };
+            let mut io = hyperdriver::bridge::io::TokioIo::new(up);
+            if io.write_all(&pat(r.id, 5, r.blen)).await.is_err() || io.flush().await.is_err() { return "err:upgraded-write".to_string(); }
+            let mut got = vec![0u8; r.rlen];
+            if io.read_exact(&mut got).await.is_err() { return "mismatch:upgraded-truncated".to_string(); }
+            if got != pat(r.id, 6, r.rlen) { return "mismatch:upgraded-bytes".to_string(); }
+            let _ = io.shutdown().await;
+            return "ok".to_string();
+        }
         let (parts, body) = resp.into_parts();
         let body = match body.collect().await { Ok(c) => c.to_bytes(), Err(_) => return "err:body".to_string() };
         let h = |n: &str| parts.headers.get(n).and_then(|v| v.to_str().ok()).unwrap_or("").to_string();
@@ -291,11 +335,19 @@ pub fn gen(r: &mut Rng, _i: u64) -> String {
     // rounds: later rounds find the connections of earlier ones in the pool
     let rounds = r.range(1, 3);
     let small = |r: &mut Rng| match r.below(6) { 0 => 0, 1 => r.range(1, 16), 2 | 3 => r.range(17, 900), 4 => r.range(901, 9000), _ => r.range(9001, 70000) };
+    let upg_origin = *r.pick(&pool_of);
+    let upgrades = tls != 1 && tls != 3 && r.chance(1, 3);
     let mut reqs = vec![];
     for k in 0..n {
         let id = 1000 + k * 7 + r.below(7);
+        let org = *r.pick(&pool_of);
         let ver = if r.chance(1, 2) { "11" } else { "2" };
-        let method = *r.pick(&["G", "P", "U", "D", "P", "G", "H"]);
+        let method = *r.pick(&["G", "P", "U", "D", "P", "G", "H", "W"]);
+        // protocol upgrades are an HTTP/1.1 mechanism (on an HTTP/2 connection the Upgrade header is, correctly, dropped): they are
+        // generated for one origin of the scenario, whose requests are then all HTTP/1.1, and not where TLS may negotiate h2
+        let method = if method == "W" && !upgrades { "G" } else { method };
+        let org = if method == "W" { upg_origin } else { org };
+        let ver = if upgrades && org == upg_origin { "11" } else { ver };
         let blen = if method == "G" || method == "H" || method == "D" { if r.chance(1, 6) { small(r) } else { 0 } } else { small(r) };
         let bchunk = *r.pick(&[1u64, 7, 64, 1000, 16384, 100000]);
         let rlen = small(r);
@@ -310,7 +362,7 @@ pub fn gen(r: &mut Rng, _i: u64) -> String {
         // hyper sends no body for GET/HEAD unless its length is known up front
         let bexact = if method == "G" || method == "H" { 1 } else { r.chance(1, 2) as u8 };
         reqs.push(format!("{id} {ver} {} {method} {} {} {blen} {bchunk} {bexact} {delay} {rlen} {rchunk} {} {start} {cancel}",
-            r.pick(&pool_of), r.below(40), if r.chance(1, 2) { 0 } else { r.range(1, 30) }, r.chance(1, 2) as u8));
+            org, r.below(40), if r.chance(1, 2) { 0 } else { r.range(1, 30) }, r.chance(1, 2) as u8));
     }
     format!("{buf} {pool} {tls} ; {}", reqs.join(" ; "))
 }
